@@ -99,6 +99,9 @@ func verifyFunc(p *Prog, fn *ssa.Function, fc *FuncContract, cover bool) (e *Exe
 	for _, c := range fc.Requires {
 		e.S.Assert(e.evalBool(env, c.Expr))
 	}
+	for _, u := range fc.Unfolds {
+		e.instLemma(env, u, st)
+	}
 	if fc.Trusted {
 		return e
 	}
